@@ -198,8 +198,8 @@ class Model(object):
         self.eval_num[k] = eval_num
         self.factorisation_current = False
 
-        if allow_kopt_update and self.objval[k] < self.objopt():
-            self.kopt = k
+        if allow_kopt_update and (self.objval[k] < self.objopt() or (np.isnan(self.objopt()) and not np.isnan(self.objval[k]))):
+            self.kopt = k  # strictly better, or the first usable value after a NaN incumbent
         return
 
     def swap_points(self, k1, k2):
@@ -226,7 +226,8 @@ class Model(object):
             self.objval[k] += self.h(remove_scaling(self.as_absolute_coordinates(self.points[k, :]), self.scaling_changes), *self.argsh)  # at the point that was evaluated
         self.nsamples[k] += 1
 
-        self.kopt = np.argmin(self.objval[:self.npt()])  # make sure kopt is always the best value we have
+        if not np.all(np.isnan(self.objval[:self.npt()])):
+            self.kopt = np.nanargmin(self.objval[:self.npt()])  # make sure kopt is always the best value we have (ignoring NaNs)
         return
 
     def add_new_point(self, x, rvec, eval_num):
@@ -241,7 +242,7 @@ class Model(object):
         self.num_pts += 1  # make sure npt is updated
         self.npt_so_far += 1
 
-        if obj < self.objopt():
+        if obj < self.objopt() or (np.isnan(self.objopt()) and not np.isnan(obj)):
             self.kopt = self.npt() - 1
 
         self.factorisation_current = False
@@ -265,7 +266,7 @@ class Model(object):
         obj = sumsq(rvec)
         if self.h is not None:
             obj += self.h(remove_scaling(xabs, self.scaling_changes), *self.argsh)
-        if self.objsave is None or obj <= self.objsave:
+        if self.objsave is None or obj <= self.objsave or (np.isnan(self.objsave) and not np.isnan(obj)):
             self.xsave = xabs
             self.rsave = rvec.copy()
             self.objsave = obj
@@ -279,7 +280,7 @@ class Model(object):
 
     def get_final_results(self):
         # Return x and objval for optimal point (either from xsave+objsave or kopt)
-        if self.objsave is None or self.objopt() <= self.objsave:  # optimal has changed since xsave+objsave were last set
+        if self.objsave is None or self.objopt() <= self.objsave or np.isnan(self.objsave):  # optimal has changed since xsave+objsave were last set (never prefer a NaN saved value)
             return self.xopt(abs_coordinates=True).copy(), self.ropt().copy(), self.objopt(), self.model_jac.copy(), self.nsamples[self.kopt], self.eval_num[self.kopt], self.model_jac_eval_nums
         else:
             return self.xsave.copy(), self.rsave.copy(), self.objsave, self.jacsave, self.nsamples_save, self.eval_num_save, self.jacsave_eval_nums
